@@ -783,8 +783,9 @@ theorem src_k_clipping (n k : Nat) :
 /-- **src_mesh_vertices.** Marching-cubes vertices are placed at `(index − pad + voxel offset)·spacing` in the single-pass path and at
 `(index + voxel offset)·spacing` in the chunked path (`index` in voxels), i.e. on the grid `index·units` of the `VoxelNeuron`, to which
 `voxels2mesh` adds `vox.offset`; the spacing is the neuron's `units_xyz.magnitude`; the iso level is ½.  The tube mesh repeats every
-node of a segment `tube_points` times in its `vertex_map` (segments addressed by row position, single-node segments skipped, no
-vertex merging); `mesh2skeleton` takes `vertex_map` from skeletor's `mesh_map` and re-maps shaved bristles to their parents. -/
+node of a segment `tube_points` times in its `vertex_map` (segments addressed by row position, no vertex merging); a single-node
+segment, for which `make_tube` produces nothing, becomes a sphere of the node's radius (× scale factor) centred on the node whose
+vertices are all mapped to that node; `mesh2skeleton` takes `vertex_map` from skeletor's `mesh_map` and re-maps shaved bristles to their parents. -/
 theorem src_mesh_vertices (m o s : Rat) :
     eval (envOf [("verts", m * s), ("offset", o), ("spacing", s)]) singleVertsE = (m - (singlePad : Rat) + o) * s ∧
     eval (envOf [("verts", m), ("offset", o), ("spacing", s)]) chunkedVertsE = (m + o) * s ∧
@@ -792,9 +793,10 @@ theorem src_mesh_vertices (m o s : Rat) :
     voxelMeshAddsOffset = true ∧ voxelMeshAutoSpacing = "vox.units_xyz.magnitude" ∧ singleMarchingSpacing = "spacing" ∧
     marchingLevel = "0.5" ∧
     tubeVertexMapRepeat = "tube_points" ∧ tubeVertexMapConds = [⟨"len(segment)", ">", "1"⟩] ∧ tubeMeshProcess = false ∧
-    tubeSegmentsByPosition = true ∧ skeletonVertexMapFrom = "skeleton.mesh_map" ∧ skeletonBristleRemap = true := by
+    tubeSegmentsByPosition = true ∧ tubeSingleNodeSegments = "sphere" ∧
+    skeletonVertexMapFrom = "skeleton.mesh_map" ∧ skeletonBristleRemap = true := by
   refine ⟨?_, ?_, by decide, by decide, by decide, by decide, by decide, by decide, by decide, by decide, by decide, by decide,
-    by decide, by decide⟩
+    by decide, by decide, by decide⟩
   · first | (simp [singleVertsE, singlePad, eval, envOf]; done) | (simp [singleVertsE, singlePad, eval, envOf]; ring)
   · first | (simp [chunkedVertsE, eval, envOf]; done) | (simp [chunkedVertsE, eval, envOf]; ring)
 
